@@ -467,8 +467,8 @@ struct CanonicalizeContextPatterns {
 
 impl CanonicalizeContextPatterns {
 	fn new(block_separator_pref: &str, decimal_separator_pref: &str) -> CanonicalizeContextPatterns {
-		let block_separator = Regex::new(&format!("[{}]", regex::escape(block_separator_pref))).unwrap();
-		let decimal_separator = Regex::new(&format!("[{}]", regex::escape(decimal_separator_pref))).unwrap();
+		let block_separator = Regex::new(&char_class(block_separator_pref)).unwrap();
+		let decimal_separator = Regex::new(&char_class(decimal_separator_pref)).unwrap();
 		// allows just "." and also matches an empty string, but those are ruled out elsewhere
 		let digit_only_decimal_number = Regex::new(&format!(r"^\d*{}?\d*$", regex::escape(decimal_separator_pref))).unwrap();
 		let block_3digit_pattern = get_number_pattern_regex(block_separator_pref, decimal_separator_pref, 3, 3);
@@ -488,12 +488,18 @@ impl CanonicalizeContextPatterns {
 		};
 
 		
+		/// A regex character class for the chars of a separator preference.
+		/// An empty value means "no such separator" ("[]" is not a legal regex), so the class then matches nothing
+		fn char_class(chars: &str) -> String {
+			return if chars.is_empty() {r"[^\s\S]".to_string()} else {format!("[{}]", regex::escape(chars))};
+		}
+
 		fn get_number_pattern_regex(block_separator: &str, decimal_separator: &str, n_sep_before: usize, n_sep_after: usize) -> Regex {
 			// the following is a generalization of a regex like ^(\d*|\d{1,3}([, ]?\d{3})*)(\.(\d*|(\d{3}[, ])*\d{1,3}))?$
 			// that matches something like '1 234.567 8' and '1,234.', but not '1,234.12,34
-			return Regex::new(&format!(r"^(\d*|\d{{1,{}}}([{}]?\d{{{}}})*)([{}](\d*|(\d{{{}}}[{}])*\d{{1,{}}}))?$",
-							n_sep_before, regex::escape(block_separator), n_sep_before, regex::escape(decimal_separator),
-							n_sep_after, regex::escape(block_separator), n_sep_after) ).unwrap();
+			return Regex::new(&format!(r"^(\d*|\d{{1,{}}}({}?\d{{{}}})*)({}(\d*|(\d{{{}}}{})*\d{{1,{}}}))?$",
+							n_sep_before, char_class(block_separator), n_sep_before, char_class(decimal_separator),
+							n_sep_after, char_class(block_separator), n_sep_after) ).unwrap();
 		}
 	}
 }
